@@ -44,6 +44,38 @@ func (p *Program) appendFamily() map[*ssa.Function]int {
 			break
 		}
 	}
+	// only the writers of the serialisation layer are held to the append contract: the functions of
+	// this shape that an AppendJSON method reaches through static calls (a helper of the parser that
+	// builds member text, say, may legitimately look at what it has collected so far)
+	reach := map[*ssa.Function]bool{}
+	var work []*ssa.Function
+	for fn := range out {
+		if fn.Name() == "AppendJSON" && fn.Signature.Recv() != nil {
+			reach[fn] = true
+			work = append(work, fn)
+		}
+	}
+	for len(work) > 0 {
+		fn := work[len(work)-1]
+		work = work[:len(work)-1]
+		for _, b := range fn.Blocks {
+			for _, in := range b.Instrs {
+				if call, ok := in.(ssa.CallInstruction); ok {
+					if sc := call.Common().StaticCallee(); sc != nil && !reach[sc] {
+						if _, isW := out[sc]; isW {
+							reach[sc] = true
+							work = append(work, sc)
+						}
+					}
+				}
+			}
+		}
+	}
+	for fn := range out {
+		if !reach[fn] {
+			delete(out, fn)
+		}
+	}
 	return out
 }
 
